@@ -48,7 +48,7 @@ pub const PROPS: &[Prop] = &[
         quick_runs: 250_000,
         thorough_runs: 6_000_000,
         rule: "same runs as C06; oracles: FastTrack-style happens-before check on every cell access built from the channel's declared orderings (release sequences through RMWs), and per-token drop accounting (exactly once; site = receiver, own full send, or channel drop). Non-trivial: two different threads accessed the same cell during the run or a nested operation ran. Distinct: by schedule signature.",
-        probes: &[(E_CHAN_FULL_DISCARD, "send_discarded_because_full"), (E_CHAN_NESTED, "nested_operation_ran"), (E_CHAN_OPS, "channel_operations"), (E_CAS_REAL_FAIL, "cas_failed_for_a_real_reason")],
+        probes: &[(E_CHAN_FULL_DISCARD, "send_discarded_because_full"), (E_CHAN_NESTED, "nested_operation_ran"), (E_CHAN_OPS, "channel_operations"), (E_CAS_REAL_FAIL, "cas_failed_for_a_real_reason"), (E_CHAN_DROP_PANIC, "fault:payload_destructor_panicked_during_channel_drop")],
         real: CHAN_REAL,
         stub: CHAN_STUB,
         assumptions: &["same-thread nested accesses are invisible to vector clocks; they are covered by the drop-site rule and C06 (a)/(e)"],
@@ -125,6 +125,9 @@ struct World {
     nested_kinds: u32,
     /// how many values the final drain may take before the channel is dropped (None = all)
     final_drain: Option<u32>,
+    /// fault: this token's destructor panics when it is dropped together with the channel
+    panic_tok: Option<usize>,
+    panic_fired: bool,
     solo_target: Option<usize>,
     nested_cost: Vec<u64>,
     completed: Vec<u64>,
@@ -173,6 +176,12 @@ impl Drop for Tok {
                     t.foreign_desc = format!("outside any operation on T{}", me);
                 }
             }
+        }
+        if x.chan_dropping && x.panic_tok == Some(self.id) && !x.panic_fired {
+            x.panic_fired = true;
+            sim::count(E_CHAN_DROP_PANIC, 1);
+            drop(_g);
+            panic!("payload destructor panics (injected)");
         }
         if t.site == 4 {
             let d = t.foreign_desc.clone();
@@ -479,7 +488,13 @@ fn finish(nontrivial: bool) -> ! {
     }
     let ch = w().chan.take().unwrap();
     match Arc::try_unwrap(ch) {
-        Ok(c) => drop(c),
+        Ok(c) => {
+            // (one payload's destructor may panic by injection: the others must still be dropped)
+            let r = catch_unwind(AssertUnwindSafe(move || drop(c)));
+            if r.is_err() && !w().panic_fired {
+                sim::report("C08", "operation-panicked", "dropping the channel panicked", true);
+            }
+        }
         Err(_) => sim::harness_error("channel still shared at the end of the run"),
     }
     let _g = ShimGuard::new();
@@ -542,6 +557,8 @@ pub fn run(spec: &RunSpec) -> ! {
         wm: false,
         nested_kinds: 1,
         final_drain: None,
+        panic_tok: None,
+        panic_fired: false,
         solo_target: None,
         nested_cost: vec![0; sim::MAX_THREADS],
         completed: vec![0; sim::MAX_THREADS],
@@ -566,6 +583,9 @@ pub fn run(spec: &RunSpec) -> ! {
     }
     if sim::work(3) == 0 {
         w().final_drain = Some(sim::work(3));
+        if sim::work(2) == 0 {
+            w().panic_tok = Some(sim::work(8) as usize);
+        }
     }
     if sim::work(4) == 0 && prop != "C08" {
         sequential_script(spec);
